@@ -85,6 +85,12 @@ def tasks(tier, seed):
                            "name": "defaulttimeout=%s/silent/%s/%s/j1/%s" % (dt, iv, to, traffic)})
                 ts.append({"kind": "responsive", "iv": iv, "to": to, "pat": "to", "payload": "k", "traffic": traffic, "bound": 2, "dt": dt,
                            "name": "defaulttimeout=%s/responsive/%s/%s/to/%s" % (dt, iv, to, traffic)})
+    # one ping's send() fails with a transient kernel error (ENOBUFS) while the connection stays up: the pings go on
+    # (without a ping timeout: whether an unsent ping may later count as unanswered is not specified)
+    for iv in (2, 3):
+        for k in (1, 2, 3):
+            ts.append({"kind": "responsive", "iv": iv, "to": None, "pat": "none", "payload": "k", "traffic": "none", "bound": 2, "send_fault": k,
+                       "name": "send-fault/%s/ping%d" % (iv, k)})
     # line-level: the ping thread preempting the loop (and vice versa) at every executed library line, for pairs where ping instants and
     # select deadlines coincide (interval a multiple of the timeout) and where they do not
     for iv, to in (((2, 1),) if tier == "quick" else ((2, 1), (3, 1), (2.5, 2), (4, 2))):
@@ -168,6 +174,14 @@ class Harness:
                 "run_kwargs": run_kwargs, "horizon": 400.0, "max_steps": 30000 if not d.get("line") else 200000, "line_level": bool(d.get("line"))}
         if d.get("dt") is not None:
             spec["default_timeout"] = d["dt"]
+        if d.get("send_fault"):
+            import errno as _errno
+
+            def arm(app, run, k=d["send_fault"]):
+                # counted from the first write after the handshake: the k-th send() call on this transport fails once
+                sk = run.net.socks[-1]
+                sk.send_faults[sk.n_send_calls + k] = OSError(_errno.ENOBUFS, "No buffer space available")
+            spec["actions"] = {"on_open": arm}
         if d.get("prior") == "errored-run":
             lost_at = iv + 0.5
             spec["attempts"] = [lambda: tnet.ServerPeer(script=[(lost_at, "eof", b"")], on_ping=("all", 0.0))]
@@ -231,9 +245,11 @@ class Harness:
         times = [t for t, f in pings]
         if not times:
             raise V("no-pings", "no ping reached the peer (interval %r, run ended at %r)" % (iv, end_t))
-        if times[0] > 2 * iv + 1e-9:
+        if times[0] > 2 * iv + (iv if d.get("send_fault") == 1 else 0) + 1e-9:
             raise V("first-ping-late", "first ping at t=%.2f, later than two intervals (%.2f) after on_open" % (times[0], 2 * iv))
         for a, b in zip(times, times[1:]):
+            if d.get("send_fault") and abs((b - a) - 2 * iv) < 1e-9:
+                continue  # the ping whose send() failed is missing
             if abs((b - a) - iv) > 1e-9:
                 raise V("ping-spacing", "consecutive pings at t=%.2f and t=%.2f, interval is %r" % (a, b, iv), early=(b - a) < iv)
         if end_t is not None and any(t > end_t + 1e-9 for t in times):
@@ -258,7 +274,7 @@ class Harness:
                     d.get("pat"), errs[0][0], errs[0][2]), pat=d.get("pat"), ratio=_ratio(iv, to))
             if out[1] is not False:
                 raise V("return-value", "clean run returned %r" % (out[1],))
-            n_expected = int((end_at - 2 * iv) // iv) + 1
+            n_expected = int((end_at - 2 * iv) // iv) + 1 - (1 if d.get("send_fault") else 0)
             if len(times) < n_expected:
                 raise V("pings-stopped", "only %d pings in a run of %.2f (expected >= %d)" % (len(times), end_at, n_expected))
 
